@@ -74,8 +74,9 @@ func (c *hookclient) Receive(ctx context.Context, subscribe rueidis.Completed, f
 }
 
 func (c *hookclient) Nodes() map[string]rueidis.Client {
-	nodes := c.client.Nodes()
-	for addr, client := range nodes {
+	inner := c.client.Nodes()
+	nodes := make(map[string]rueidis.Client, len(inner)) // do not write into a map owned by the inner client: it may hand out the same map again
+	for addr, client := range inner {
 		nodes[addr] = &hookclient{client: client, hook: c.hook}
 	}
 	return nodes
